@@ -76,10 +76,14 @@ static void family(rng& g, bool thorough, bool dists)
         c.plan = make_plan(g, 31);
         run_vegas<T>(c, script_engine(script_registry::add(sc)), pdf, std::vector<std::size_t>{15}, T(1.5));
     }
-    for (int fam = 0; fam != 4; ++fam)
+    // (families 4..6: weights that are not dyadic, followed by disabled channels: the partial sums are rounded, the selector's
+    //  largest value below one must still end up in the last *enabled* channel)
+    for (int fam = 0; fam != 7; ++fam)
     {
         std::vector<T> w = fam == 0 ? std::vector<T>{T(2), T(1), T(1), T(0)}
-            : (fam == 1 ? std::vector<T>{T(1), T(1)} : (fam == 2 ? std::vector<T>{T(0), T(0), T(3), T(0), T(1)} : std::vector<T>{T(1)}));
+            : (fam == 1 ? std::vector<T>{T(1), T(1)} : (fam == 2 ? std::vector<T>{T(0), T(0), T(3), T(0), T(1)} : (fam == 3 ? std::vector<T>{T(1)}
+            : (fam == 4 ? std::vector<T>{T(0.7), T(0.2), T(0.1), T(0)} : (fam == 5 ? std::vector<T>{T(0.1), T(0.2), T(0.3), T(0.4), T(0), T(0)}
+            : std::vector<T>{T(1), T(0), T(1), T(1), T(0)})))));
         call_ctx<T> c;
         c.cfg.kind = "mc";
         c.cfg.d = 1 + (std::size_t) (fam % 2);
@@ -87,6 +91,28 @@ static void family(rng& g, bool thorough, bool dists)
         c.dists = dists;
         c.plan = make_plan(g, 97);
         run_mc<T>(c, make_engine(g, 223), w, iters);
+    }
+}
+
+// random weight vectors that end with disabled channels, every random number the largest value below one
+template <typename T>
+static void top_family(rng& g, int count)
+{
+    for (int k = 0; k != count; ++k)
+    {
+        std::size_t n = 3 + g.below(4), off = 1 + g.below(2);
+        std::vector<T> w(n, T());
+        for (std::size_t i = 0; i + off < n; ++i) w[i] = T(1 + g.below(999)) / T(1000);
+        if (g.below(3) == 0) w[0] = T();
+        if (w[1] == T() && w[0] == T()) w[1] = T(0.3);
+        call_ctx<T> c;
+        c.cfg.kind = "mc";
+        c.cfg.d = 1;
+        c.cfg.densfam = 0;
+        c.plan = make_plan(g, 7);
+        std::vector<std::uint64_t> sc(64, ~0ULL);
+        for (std::size_t i = 0; i < sc.size(); i += 8) sc[i] = ~0ULL - (1ULL << (10 + g.below(3)));
+        run_mc<T>(c, script_engine(script_registry::add(sc)), w, std::vector<std::size_t>{3, 3});
     }
 }
 
@@ -100,6 +126,7 @@ int main(int argc, char** argv)
     family<float>(g, thorough, true);
     family<double>(g, thorough, false);
     family<long double>(g, thorough, true);
+    top_family<float>(g, thorough ? 120 : 30); top_family<double>(g, thorough ? 120 : 30); top_family<long double>(g, thorough ? 120 : 30);
     if (thorough) { family<float>(g, true, false); family<double>(g, true, true); family<long double>(g, true, false); }
     out().close();
     return 0;
